@@ -202,9 +202,13 @@ def run_late_iter(c):
     gate, entered, release = threading.Event(), threading.Event(), threading.Event()
     STATE.update(at=None, main=threading.get_ident())
 
+    ran_late = []
+
     def held(i, fails):
         # tasks after the first wait until the consumer has its first value: the callback that reaches the slow
         # end of the input then finds nobody waiting for the dispatch lock
+        if i == 99:
+            ran_late.append(i)
         if i >= 1:
             release.wait(5)
         return task(i, fails)
@@ -216,6 +220,10 @@ def run_late_iter(c):
             yield delayed(held)(i, c.get("how") == "taskfail" and i == 1)
         entered.set()
         gate.wait(5)
+        if c.get("how") == "late_item":
+            # the input is merely slow: it hands out one more item after the call has been closed
+            yield delayed(held)(99, False)
+            return
         raise IterFail(4)
     p = Parallel(n_jobs=2, backend=CFBackend(), pre_dispatch=2, batch_size=1, return_as=c["return_as"])
     out = {"first": None, "calls": []}
@@ -243,6 +251,7 @@ def run_late_iter(c):
     except BaseException as e:  # noqa
         call["raised"] = [type(e).__name__, [a if isinstance(a, (int, str)) else repr(a) for a in e.args]]
     out["calls"].append(call)
+    out["ran_after_close"] = list(ran_late)
     return out
 
 
